@@ -21,7 +21,10 @@ CLAIM = dict(
           "(2) IdInRange's binary search over the regenerated table equals linear membership for every code point and cannot "
           "index out of range or loop; (3) parseKeyword's regenerated decision tree returns the longest documented keyword "
           "(manual's 34 words) at every position, NextToken cuts keywords greedily left to right, backtick text is one "
-          "identifier, + - * / are operators only before a space, punctuation or quote, and lexing terminates on every input. "
+          "identifier, + - * / are operators only before a space, punctuation or quote, and lexing terminates on every input; "
+          "(4) as ONE statement over whole texts (C04_segmentation): for every list of code points the lexer model returns exactly the "
+          "greedy left-to-right segmentation computed by a second, declaratively written scanner (longest word of a table that starts "
+          "here; maximal run before the first break) — tokens, positions, literals and the way the run ends. "
           "Every run compares exec.MatchIDType (all strings to length 6-7 over the numeric alphabet, values against correctly "
           "rounded doubles), syntax.IdInRange (all 0x110000 code points) and the zh.NextToken token stream (type, literal, "
           "start, end) on generated unspaced text with the models evaluated inside Coq."),
